@@ -1,6 +1,7 @@
 package main
 
 import (
+	"math/big"
 	"fmt"
 	"strings"
 )
@@ -110,6 +111,21 @@ func genTextOps(r *Rng, i int, tier string) []Op {
 			mult := map[byte]int64{'s': 1, 'm': 60, 'h': 3600, 'd': 86400, 'w': 604800, 'y': 31536000}[u]
 			q := 2147483647/mult + int64(r.Intn(5)) - 2
 			ops = append(ops, Op{"parsedur " + hexOfString(fmt.Sprintf("%d%c", q, u)), true})
+			// long numerals whose product with the unit wraps a wider integer (2^32, 2^63, 2^64)
+			// back into the 31-bit range: numeral = ceil(k·2^w / unit)
+			w := []uint{32, 63, 64}[r.Intn(3)]
+			k := new(big.Int).SetUint64(1 + r.U64()%uint64(mult/2+1))
+			num := new(big.Int).Lsh(k, w)
+			num.Div(num, big.NewInt(mult))
+			num.Add(num, big.NewInt(int64(r.Intn(3))))
+			ops = append(ops, Op{"parsedur " + hexOfString(num.String() + string(u)), true})
+			ops = append(ops, Op{"parsearch " + hexOfString("1s:" + num.String() + string(u)), true})
+			// and plain long digit strings
+			var b strings.Builder
+			for j := 0; j < 10+r.Intn(14); j++ {
+				b.WriteByte("0123456789"[r.Intn(10)])
+			}
+			ops = append(ops, Op{"parsedur " + hexOfString(b.String() + string(u)), true})
 		case 4: // timestamps: print then parse
 			var t uint64
 			if r.Bool() {
